@@ -470,8 +470,48 @@ def judge_fidelity(c, rec):
     rec.case(c, True, ["sub=fidelity", "family=" + fam])
 
 
+def judge_object(c, rec):
+    """A settings *object* handed to a model constructor: it is either refused, or the model ends up with exactly the approved constants
+    of its own family (plus the non-developer choices the object carries) - never with another family's developer-only constants."""
+    from opendsm import eemeter as em
+    from opendsm.eemeter.models.daily.utilities import settings as ds
+
+    from opendsm.eemeter.models.billing.settings import BillingSettings
+
+    classes = {"DailySettings": ds.DailySettings, "DailyLegacySettings": ds.DailyLegacySettings, "BillingSettings": BillingSettings}
+    ctors = {"DailyModel()": lambda st_: em.DailyModel(settings=st_), "DailyModel(model='legacy')": lambda st_: em.DailyModel(model="legacy", settings=st_),
+             "BillingModel()": lambda st_: em.BillingModel(settings=st_)}
+    g = golden()["constructor_defaults"]
+    buf = io.StringIO()
+    with contextlib.redirect_stdout(buf):
+        try:
+            obj = classes[c["cls"]](**copy.deepcopy(c["kwargs"]))
+        except Exception as e:
+            rec.note("object-not-constructible:" + type(e).__name__)
+            rec.case(c, False, ["sub=object"])
+            return
+        try:
+            m = ctors[c["ctor"]](obj)
+        except Exception as e:
+            rec.expected(type(e).__name__)
+            rec.case(c, True, ["sub=object", "outcome=refused"])
+            return
+    got = stree.jsonify(m.settings.model_dump())
+    exp = copy.deepcopy(g[c["ctor"]])
+    for k, v in c["kwargs"].items():  # non-developer choices carried by the object
+        if isinstance(v, dict):
+            exp[k] = dict(exp.get(k, {}), **v)
+        else:
+            exp[k] = v
+    fa, fb = _flat(exp), _flat(got)
+    diff = ["%s: %r (approved %r)" % (k, fb.get(k), fa.get(k)) for k in sorted(set(fa) | set(fb)) if fa.get(k) != fb.get(k) and not k.endswith("options")]
+    if diff and not got.get("developer_mode"):
+        rec.violation("object/other-constants-without-developer-mode", c, "%s given a %s object: %s" % (c["ctor"], c["cls"], "; ".join(diff[:5])))
+    rec.case(c, True, ["sub=object", "outcome=accepted"])
+
+
 JUDGES = {"golden": judge_golden, "ctor": judge_ctor, "lock": judge_lock, "invalid": judge_invalid, "cross": judge_cross,
-          "hourly": judge_hourly, "fidelity": judge_fidelity}
+          "hourly": judge_hourly, "fidelity": judge_fidelity, "object": judge_object}
 
 
 def judge(c, rec):
@@ -524,6 +564,17 @@ def all_cases(tier):
         {"kind": "fidelity", "family": "hourly", "settings": {"seed": 3}, "ghi": True},
         {"kind": "fidelity", "family": "hourly", "settings": {"seed": 7, "train_features": ["temperature"], "cvrmse_threshold": 2.0, "elasticnet": {"alpha": 0.2}}},
     ]
+    # values the caller sets to None on purpose (no temperature bins, no edge bins) are settings like any other
+    fid += [
+        {"kind": "fidelity", "family": "hourly", "settings": {"seed": 5, "temperature_bin": None}},
+        {"kind": "fidelity", "family": "hourly", "settings": {"seed": 5, "temperature_bin": None}, "ghi": True},
+        {"kind": "fidelity", "family": "hourly", "settings": {"seed": 5, "temperature_bin": {"include_edge_bins": False, "edge_bin_rate": None, "edge_bin_percent": None}}},
+        {"kind": "fidelity", "family": "hourly", "settings": {"seed": 5, "supplemental_time_series_columns": None, "cvrmse_threshold": 1.1}},
+    ]
+    for ctor in ("DailyModel()", "DailyModel(model='legacy')", "BillingModel()"):
+        for cls in ("DailySettings", "DailyLegacySettings", "BillingSettings"):
+            for kwargs in ({}, {"season": {"march": "winter"}}, {"uncertainty_alpha": 0.2}):
+                out.append({"kind": "object", "ctor": ctor, "cls": cls, "kwargs": kwargs})
     if tier == "thorough":
         fid += [
             {"kind": "fidelity", "family": "daily", "settings": {}},
